@@ -2,7 +2,10 @@ module lfsverif
 
 go 1.23.0
 
-require github.com/git-lfs/git-lfs/v3 v3.0.0
+require (
+	github.com/git-lfs/git-lfs/v3 v3.0.0
+	github.com/xeipuuv/gojsonschema v0.0.0-20170210233622-6b67b3fab74d
+)
 
 require (
 	github.com/dpotapov/go-spnego v0.0.0-20210315154721-298b63a54430 // indirect
@@ -26,6 +29,8 @@ require (
 	github.com/spf13/cobra v1.7.0 // indirect
 	github.com/spf13/pflag v1.0.5 // indirect
 	github.com/ssgelm/cookiejarparser v1.0.1 // indirect
+	github.com/xeipuuv/gojsonpointer v0.0.0-20180127040702-4e3ac2762d5f // indirect
+	github.com/xeipuuv/gojsonreference v0.0.0-20180127040603-bd5ef7bd5415 // indirect
 	golang.org/x/crypto v0.36.0 // indirect
 	golang.org/x/net v0.38.0 // indirect
 	golang.org/x/sync v0.12.0 // indirect
